@@ -503,8 +503,8 @@ func (ps *Pieces) Expire(bytes int64, available []uint16, f func(index uint32)) 
 func (ps *Pieces) Del() {
 	ps.mu.Lock()
 	defer ps.mu.Unlock()
+	ps.deleted = true
 	for i := uint32(0); i < uint32(len(ps.pieces)); i++ {
 		ps.del(i, true)
 	}
-	ps.deleted = true
 }
